@@ -41,5 +41,10 @@ def run(ctx):
         for p in paths:
             try: os.remove(p)
             except OSError: pass
-    ctx.cov["rule"] = ("tr_block: one block object per scenario; items = scenarios judged by the oracle; transitions = flag / performed / leave transitions explained by BlockP.step plus "
+    # dispatch_block_wait (zero timeout, finite timeout) racing with the submission of the block object itself, through every submission API
+    wr = [[ctx.seed * 10 + i, 120 if ctx.thorough else 20] for i in range(4 if ctx.thorough else 2)]
+    run_traces(ctx, "c19_waitrace", wr, None, None, "L-api wait racing with submission", "waitrace", timeout=400)
+    # "returns non-zero only after the full timeout": timed waits on the three clocks while signals interrupt the waiting thread
+    run_traces(ctx, "c12_waits", [[ctx.seed * 10 + 3]], None, None, "L-api timed waits under signals", "waits", timeout=120)
+    ctx.cov["rule"] = ("c12_waits: timed dispatch_block_wait (also group / semaphore) on a block that does not run, signals at the waiter; c19_waitrace: a waiter polls dispatch_block_wait from before the submission on; tr_block: one block object per scenario; items = scenarios judged by the oracle; transitions = flag / performed / leave transitions explained by BlockP.step plus "
                        "dg_state transitions of the private groups explained by GroupP.step")
